@@ -28,7 +28,7 @@ def run(ctx):
     env["VERIF_EVERY3"] = 4
     ctx.drive("bind/queryb", "TestC16", beh=beh, env=env, label="C16/C16_sim", timeout=2400)
     if thorough:
-        m = ctx.modelcheck("Query", "C16_mc", timeout=1200)
+        m = ctx.modelcheck("Query", "C16_mc", timeout=2400)
         if m.violation:
             ctx.inconclusive.append("the specification's own paging invariants (PagesConcatenate/PagesAreSlices) failed: " + m.violation[:1500])
     ctx.rule = ("behaviour = 21 steps chosen by TLC (seeded simulation) from writes, Rows / GroupBy / MinRow / MaxRow calls "
